@@ -11,56 +11,92 @@ Open Scope list_scope.
 (* ====================================================================================== *)
 (* reload                                                                                  *)
 (* ====================================================================================== *)
-(* the fragment of compositions whose files can be read back unchanged *)
-Fixpoint reloadable (n : node) : bool :=
+(* the compositions whose own files the code reads back to the same description: everything except
+   ModifiedPrior (-x, abs x) and Models without a free parameter (both refuted in Refute.v).
+   Arithmetic priors are included whatever the caller-derived attribute names are. *)
+Fixpoint reload_ok (n : node) : bool :=
   let all := (fix go (l : list (string * node)) : bool :=
-                match l with [] => true | kv :: r => match kv with (_, v) => reloadable v && go r end end) in
+                match l with [] => true | kv :: r => match kv with (_, v) => reload_ok v && go r end end) in
   match n with
   | NPrior _ fam _ _ _ _ => negb (is_log_gaussian fam) || log_gaussian_dict
   | NFloat _ | NInt _ | NBool _ | NStr _ | NNone => true
   | NTuple _ ms => all ms
-  | NBinop _ _ ln rn l r => String.eqb ln "left_" && String.eqb rn "right_" && negb (same_prior l r) && reloadable l && reloadable r
-  | NUnop _ _ _ a => false
+  | NBinop _ _ _ _ l r => reload_ok l && reload_ok r
+  | NUnop _ _ _ _ => false
   | NModel _ _ _ _ attrs => has_prior n && all attrs
   | NColl _ k attrs => Z.eqb k (if reload_restores_item_number then count_digit_keys attrs else 0) && all attrs
   | NInst _ _ _ attrs => all attrs
   | NSearch c _ _ => negb (String.eqb c "Drawer") || drawer_json_readable
   end.
 
-Definition all_reloadable (l : list (string * node)) : bool := forallb (fun kv => reloadable (snd kv)) l.
+Definition all_reload_ok (l : list (string * node)) : bool := forallb (fun kv => reload_ok (snd kv)) l.
 
-Lemma reloadable_go l :
+Lemma reload_ok_go l :
   (fix go (l : list (string * node)) : bool :=
-     match l with [] => true | kv :: r => match kv with (_, v) => reloadable v && go r end end) l = all_reloadable l.
-Proof. unfold all_reloadable. induction l as [|[k v] r IH]; [reflexivity|]. cbn [forallb snd]. rewrite <- IH. reflexivity. Qed.
+     match l with [] => true | kv :: r => match kv with (_, v) => reload_ok v && go r end end) l = all_reload_ok l.
+Proof. unfold all_reload_ok. induction l as [|[k v] r IH]; [reflexivity|]. cbn [forallb snd]. rewrite <- IH. reflexivity. Qed.
 
-Lemma all_some_id (l : list (string * node)) :
-  Forall (fun kv => reloadable (snd kv) = true -> reload (snd kv) = Some (snd kv)) l ->
-  all_reloadable l = true -> all_some (reload_entries l) = Some l.
+Definition reloads_same (n : node) : Prop :=
+  reload_ok n = true -> exists n', reload n = Some n' /\ strip (reify n') = strip (reify n).
+
+Lemma count_digit_keys_fst {A B} (l : list (string * A)) (l' : list (string * B)) :
+  map fst l' = map fst l -> count_digit_keys l' = count_digit_keys l.
 Proof.
-  unfold all_reloadable, reload_entries. induction l as [|[k v] r IH]; intros HF HA; [reflexivity|].
-  inversion HF as [|? ? Hv Hr]; subst. cbn [forallb snd] in HA. apply andb_true_iff in HA. destruct HA as [A1 A2].
-  cbn [map fst snd all_some]. cbn [snd] in Hv. rewrite (Hv A1). rewrite (IH Hr A2). reflexivity.
+  unfold count_digit_keys. intro H. f_equal.
+  revert l' H. induction l as [|[k v] r IH]; intros [|[k' v'] r'] H; try discriminate; [reflexivity|].
+  cbn [map fst] in H. inversion H; subst. cbn [filter fst].
+  destruct (isdigit k); cbn [List.length]; rewrite (IH r') by assumption; reflexivity.
 Qed.
 
-Lemma reload_id : forall n, reloadable n = true -> reload n = Some n.
+Lemma entries_reload (l : list (string * node)) :
+  Forall (fun kv => reloads_same (snd kv)) l -> all_reload_ok l = true ->
+  exists l', all_some (reload_entries l) = Some l' /\ map fst l' = map fst l /\
+             forall s, strip_entries s (reify_entries l') = strip_entries s (reify_entries l).
+Proof.
+  unfold all_reload_ok, reload_entries. induction l as [|[k v] r IH]; intros HF HA.
+  - exists []. repeat split.
+  - inversion HF as [|? ? Hv Hr]; subst. cbn [forallb snd] in HA. apply andb_true_iff in HA. destruct HA as [A1 A2].
+    cbn [snd] in Hv, A1. destruct (Hv A1) as [v' [Rv Sv]]. destruct (IH Hr A2) as [r' [Rr [Kr Sr]]].
+    exists ((k, v') :: r'). cbn [map fst snd all_some]. rewrite Rv, Rr. repeat split.
+    + cbn [map fst]. rewrite Kr. reflexivity.
+    + intro s. unfold reify_entries. cbn [map fst snd]. fold (reify_entries r'). fold (reify_entries r).
+      rewrite !strip_entries_cons, Sv, Sr. reflexivity.
+Qed.
+
+Lemma compound_fields_declared : compound_idf = Some ["left"; "right"].
+Proof. reflexivity. Qed.
+
+Lemma modified_fields_declared : modified_idf = Some ["prior"].
+Proof. reflexivity. Qed.
+
+Lemma reload_same : forall n, reloads_same n.
 Proof.
   induction n as [pid fam lo hi m s|v|z|b|s| |mid ms IH|mid c ln rn l r IHl IHr|mid c pn a IHa
                  |mid lbl cls cargs attrs IH|mid k attrs IH|c cargs ex attrs IH|c fs attrs IH] using node_ind';
-    intro H; try reflexivity.
-  - cbn [reloadable] in H. cbn [reload].
-    destruct (is_log_gaussian fam); [|reflexivity]. cbn [negb orb] in H. rewrite H. reflexivity.
-  - cbn [reloadable] in H. rewrite reloadable_go in H.
-    cbn [reload]. rewrite reload_go, (all_some_id ms IH H). reflexivity.
-  - cbn [reloadable] in H. repeat (apply andb_true_iff in H; destruct H as [H ?]).
-    apply String.eqb_eq in H. apply String.eqb_eq in H3. apply negb_true_iff in H2. subst ln rn.
-    cbn [reload]. rewrite (IHl H1), (IHr H0), H2. reflexivity.
+    intro H; try (eexists; split; reflexivity).
+  - (* prior *)
+    cbn [reload_ok] in H. cbn [reload].
+    destruct (is_log_gaussian fam); [|eexists; split; reflexivity].
+    cbn [negb orb] in H. rewrite H. eexists; split; reflexivity.
+  - (* tuple *)
+    cbn [reload_ok] in H. rewrite reload_ok_go in H.
+    destruct (entries_reload ms IH H) as [ms' [R [_ S]]].
+    cbn [reload]. rewrite reload_go, R. eexists. split; [reflexivity|].
+    cbn [reify]. rewrite !reify_go, !strip_inst. f_equal. rewrite !strip_entries_cons, S. reflexivity.
+  - (* arithmetic prior: the operands are read through the declared fields left / right *)
+    cbn [reload_ok] in H. apply andb_true_iff in H. destruct H as [H1 H2].
+    destruct (IHl H1) as [l' [Rl Sl]]. destruct (IHr H2) as [r' [Rr Sr]].
+    cbn [reload]. rewrite Rl, Rr. eexists. split; [reflexivity|].
+    cbn [reify]. rewrite compound_fields_declared. rewrite !strip_inst. f_equal.
+    rewrite !strip_entries_cons, Sl, Sr. reflexivity.
   - discriminate H.
-  - change (reloadable (NModel mid lbl cls cargs attrs))
+  - (* model with a free parameter *)
+    change (reload_ok (NModel mid lbl cls cargs attrs))
       with (has_prior (NModel mid lbl cls cargs attrs) &&
             (fix go (l : list (string * node)) : bool :=
-               match l with [] => true | kv :: r => match kv with (_, v) => reloadable v && go r end end) attrs) in H.
-    rewrite reloadable_go in H. apply andb_true_iff in H. destruct H as [H1 H2].
+               match l with [] => true | kv :: r => match kv with (_, v) => reload_ok v && go r end end) attrs) in H.
+    rewrite reload_ok_go in H. apply andb_true_iff in H. destruct H as [H1 H2].
+    destruct (entries_reload attrs IH H2) as [attrs' [R [_ S]]].
     change (reload (NModel mid lbl cls cargs attrs))
       with (match all_some ((fix go (l : list (string * node)) : list (string * option node) :=
                                match l with [] => [] | kv :: r => match kv with (k, v) => (k, reload v) :: go r end end) attrs) with
@@ -72,23 +108,35 @@ Proof.
                      end
             | None => None
             end).
-    rewrite reload_go, (all_some_id attrs IH H2), H1. reflexivity.
-  - cbn [reloadable] in H. rewrite reloadable_go in H. apply andb_true_iff in H. destruct H as [H1 H2].
-    apply Z.eqb_eq in H1. subst k.
-    cbn [reload]. rewrite reload_go, (all_some_id attrs IH H2). reflexivity.
-  - cbn [reloadable] in H. rewrite reloadable_go in H.
-    cbn [reload]. rewrite reload_go, (all_some_id attrs IH H). reflexivity.
-  - cbn [reloadable] in H. cbn [reload].
-    destruct (String.eqb c "Drawer"); [|reflexivity]. cbn [negb orb] in H. rewrite H. reflexivity.
+    rewrite reload_go, R, H1. eexists. split; [reflexivity|].
+    cbn [reify]. rewrite !reify_go, !strip_inst. f_equal. rewrite !strip_entries_cons, S. reflexivity.
+  - (* collection: item_number is recounted from the positional keys *)
+    cbn [reload_ok] in H. rewrite reload_ok_go in H. apply andb_true_iff in H. destruct H as [H1 H2].
+    apply Z.eqb_eq in H1.
+    destruct (entries_reload attrs IH H2) as [attrs' [R [K S]]].
+    cbn [reload]. rewrite reload_go, R. eexists. split; [reflexivity|].
+    cbn [reify]. rewrite !reify_go, !strip_inst. f_equal. rewrite !strip_entries_cons, S.
+    rewrite (count_digit_keys_fst attrs attrs' K), <- H1. reflexivity.
+  - (* plain instance *)
+    cbn [reload_ok] in H. rewrite reload_ok_go in H.
+    destruct (entries_reload attrs IH H) as [attrs' [R [_ S]]].
+    cbn [reload]. rewrite reload_go, R. eexists. split; [reflexivity|].
+    cbn [reify]. rewrite !reify_go, !strip_inst. f_equal. apply S.
+  - (* search *)
+    cbn [reload_ok] in H. cbn [reload].
+    destruct (String.eqb c "Drawer"); [|eexists; split; reflexivity].
+    cbn [negb orb] in H. rewrite H. eexists; split; reflexivity.
 Qed.
 
 Lemma roundtrip_partial (md5 : string -> string) (ps : float -> string) (s m : node) (tag : option string) :
-  reloadable s = true -> reloadable m = true ->
+  reload_ok s = true -> reload_ok m = true ->
   exists s' m', reload s = Some s' /\ reload m = Some m' /\
                 ident md5 ps (fit_obj_output s' m' tag) = ident md5 ps (fit_obj s m tag).
 Proof.
-  intros Hs Hm. exists s, m. rewrite (reload_id s Hs), (reload_id m Hm). repeat split.
-  unfold ident, joined. rewrite fit_output_same. reflexivity.
+  intros Hs Hm. destruct (reload_same s Hs) as [s' [Rs Ss]]. destruct (reload_same m Hm) as [m' [Rm Sm]].
+  exists s', m'. repeat split; try assumption.
+  unfold ident, joined. rewrite fit_output_same. f_equal. f_equal.
+  apply stable_obj. unfold fit_obj. rewrite !strip_seq. cbn [map]. rewrite Ss, Sm. reflexivity.
 Qed.
 
 (* ====================================================================================== *)
